@@ -34,6 +34,16 @@ def _fmt_list(xs, ind='        '):
     return ''.join('%s%s,\n' % (ind, x) for x in xs)
 
 
+def reconcile_cells(sk, cells):
+    """a state cell that was merely RENAMED in the source: exactly one cell of the sidecar is missing and exactly one cell of the
+    create-closure is unknown to the sidecar -> they are the same cell (alpha-renaming; types are checked by Verus afterwards)"""
+    missing = [c for c in cells if c not in sk.cells and c not in sk.outer_cells]
+    extra = [c for c in sk.cells if c not in cells]
+    if len(missing) == 1 and len(extra) == 1:
+        sk.cells[missing[0]] = sk.cells.pop(extra[0])
+        sk.alias[extra[0]] = missing[0]
+
+
 def gen_source_unit(sc, sidecar_path, repo):
     """creation functions: the closure passed to Observable::create is the unit; its parameter becomes `&mut ObsModel<OUT>`"""
     op = sc['op']
@@ -138,9 +148,18 @@ def gen_multi_unit(sc, sidecar_path, repo):
     except (AnchorLost, LexError) as e:
         raise UnitError('anchor', str(e))
     observers = sc['observer']
+    reconcile_cells(sk, sc.get('cells', {}))
     sk.mut_on_read = set(sc.get('mut_on_read', []))
     captures = dict(sc.get('captures', {}))
     cap_pos = {}
+    # a nested fn that was merely RENAMED: the sidecar names exactly one helper, the create-closure has exactly one nested fn
+    hnames = list(sc.get('helper', {}).keys())
+    if len(hnames) == 1 and hnames[0] not in sk.helpers and len(sk.fn_helpers) == 1:
+        actual = next(iter(sk.fn_helpers))
+        sc = dict(sc)
+        sc['helper'] = {actual: sc['helper'][hnames[0]]}
+        if sc.get('captures_from_fn') == hnames[0]:
+            sc['captures_from_fn'] = actual
     if sc.get('captures_from_fn'):
         fnh = sk.helpers.get(sc['captures_from_fn'])
         if fnh is None:
@@ -568,6 +587,7 @@ def gen_unit(sidecar_path: str, repo: str) -> dict:
     except (AnchorLost, LexError) as e:
         raise UnitError('anchor', str(e))
     kind = sc.get('kind', 'single')
+    reconcile_cells(sk, sc.get('cells', {}))
     facts = skeleton_facts(sk, sc, src)
     captures: Dict[str, str] = sc.get('captures', {})
     cells: Dict[str, str] = sc.get('cells', {})
@@ -594,8 +614,11 @@ def gen_unit(sidecar_path: str, repo: str) -> dict:
         if sc.get('prologue_is') is not None:
             # a declared prologue: exactly these statements (whitespace-insensitive, `$s` = the create-closure parameter); what they do
             # is the obligation of the unit `<op>_prologue`
-            want = [re.sub(r'\s+', '', x.replace('$s', sk.create_param or 's')) for x in sc['prologue_is']]
-            got = [re.sub(r'\s+', '', x) for x in sk.prologue]
+            def norm(x):
+                x = re.sub(r'\b(\d+)\s*==\s*(\w+)\b', r'\2 == \1', x)      # `0 == count` is `count == 0`
+                return re.sub(r'\s+', '', x)
+            want = [norm(x.replace('$s', sk.create_param or 's')) for x in sc['prologue_is']]
+            got = [norm(x) for x in sk.prologue]
             if got != want:
                 sk_problems.append('statements before StreamController::new differ from the declared prologue: %r' % sk.prologue)
         elif sk.prologue and not sc.get('allow_prologue'):
@@ -793,8 +816,8 @@ def gen_unit(sidecar_path: str, repo: str) -> dict:
         try:
             toks0 = rxprep.strip_test_mods(rxprep.tree(src))
             fbody, _ = rxprep.find_fn(toks0, fn_name, sc.get('impl'))
-            got = re.sub(r'\s+', '', src[fbody.start:fbody.end])
-            if re.sub(r'\s+', '', needle) not in got:
+            got = re.sub(r'::<[^<>]*>', '', re.sub(r'\s+', '', src[fbody.start:fbody.end]))      # a turbofish does not change what is built
+            if re.sub(r'::<[^<>]*>', '', re.sub(r'\s+', '', needle)) not in got:
                 sk_problems.append('constructor fact not found in fn %s: `%s`' % (fn_name, needle))
         except (AnchorLost, LexError) as e:
             sk_problems.append('constructor fact: %s' % e)
